@@ -68,8 +68,21 @@ def label_forms(spec, span, pos, form=0):
     return el
 
 
-def absent_label(spec):
+def absent_label(spec, variant=0, span=None):
+    """A label that is not in the span. variant 0: far away; 1: a near miss of an existing label (same type family:
+    x + 0.5 for numbers, label + 'z' for strings); 2: the right spelling in the wrong type ('3' for 3, 0 for 'p0')."""
     ty = spec['type']
+    if variant and span is not None and len(span):
+        first = span[min(1, len(span) - 1)]
+        if isinstance(first, np.generic):
+            first = first.item()
+        if ty == 'list_mixed':
+            return 'az' if variant == 1 else 7.5
+        if isinstance(first, int) and not isinstance(first, bool):
+            return first + 0.5 if variant == 1 else str(first)
+        if isinstance(first, str):
+            return first + 'z' if variant == 1 else 0
+        return str(first) + 'z' if variant == 1 else 3
     if ty in ('range', 'list_int', 'np_int', 'pd_index_int'):
         return spec.get('origin', 0) + spec['n'] + 5
     if ty in ('list_str', 'np_str', 'pd_index_str', 'list_mixed'):
